@@ -35,6 +35,8 @@ fn canary_zvariant_must_fail() {
     obl!("C00.canary.deliberately_false", r != 5);
 }
 
+include!("/verif/harness/zvariant/gvariant.rs");
+
 #[cfg(all(kani, test))]
 mod playback {
     use super::*;
